@@ -203,6 +203,13 @@ def _run(mod, pid, tier, t0):
         for e in known_here:
             if f.get("witness") == e["witness"] or f.get("known_id") == e["witness"]:
                 return e
+        # a failing input the harness explicitly attributes to a recorded defect of a DEPENDENCY (e.g. an ensemble cell of
+        # C01/C02 on a periodic tpCN target = C03's finding F17) is that finding, not a new violation of this property
+        kid = f.get("known_id")
+        if kid:
+            for e in known.get("known", []):
+                if e["witness"] == kid:
+                    return e
         return None
 
     if broken:
